@@ -102,7 +102,11 @@ def check(ctx):
     ctx.assumptions += ASSUMPTIONS
     ctx.build("c18")
     ctx.tlc_actions(MODULE, "MC_Drawdown_small.cfg", ["AddPointAny"])
-    ctx.tlc_mc(MODULE, "MC_Drawdown.cfg" if ctx.quick else "MC_Drawdown_thorough.cfg", timeout=2400, coverage=False)
+    if ctx.quick:
+        ctx.tlc_mc(MODULE, "MC_Drawdown.cfg", timeout=900, coverage=False)        # <= 4 points, irregular time steps
+        ctx.tlc_mc(MODULE, "MC_Drawdown_long.cfg", timeout=900, coverage=False)   # all curves of <= 6 points over 1..4
+    else:
+        ctx.tlc_mc(MODULE, "MC_Drawdown_thorough.cfg", timeout=2400, coverage=False)  # <= 6 points, irregular steps
     # every curve of the bounded model (equal neighbours, recovery exactly to the peak, ...)
     p_t, scn_t = ctx.tlc_gen("Gen_" + MODULE, "GenT_Drawdown.cfg" if ctx.quick else "GenT_Drawdown_thorough.cfg", "all.ndjson", timeout=900)
     # longer random curves, wider values, irregular time steps
